@@ -5,7 +5,8 @@ from . import vbuild, common
 
 ROOT = common.ROOT
 CAT = os.path.join(ROOT, "build", "cat", "cat")
-SRC = [os.path.join(ROOT, "engine", "cat", f) for f in ("cat.c", "fntab.c", "cat.h")]
+SRC = [os.path.join(ROOT, "engine", "cat", f) for f in ("cat.c", "fntab.c")] + [os.path.join(ROOT, "engine", "trapvm", "trapvm.c"),
+       os.path.join(ROOT, "engine", "cat", "cat.h"), os.path.join(ROOT, "engine", "trapvm", "trapvm.h")]
 
 VARIANTS = {"C01": ["prod", "noslack"], "C02": ["prod"], "C03": ["prod", "noslack"], "C04": ["prod", "noslack"],
             "C05": ["prod"], "C06": ["prod"], "C08": ["prod", "noslack"], "C10": ["prod"]}
@@ -28,7 +29,7 @@ def fn_list():
 
 
 def build_harness():
-    common.cc(CAT, SRC[:2], ["-O1", "-g", "-Wall", "-Wno-unused-function", "-ldl"])
+    common.cc(CAT, SRC[:3], ["-O1", "-g", "-Wall", "-Wno-unused-function", "-pthread"], deps=SRC[3:])
     # -ldl must follow the sources for old linkers; gcc >= 2.34 has dlopen in libc anyway
     return CAT
 
